@@ -23,7 +23,7 @@ func init() {
 		Run: c17,
 		Explanation: "Decides the gates and selection idioms of dependency resolution: (R17.1) every package Create/Update in the resolver needs ok(dag.Init) then ok(dag.Sort) (cycle gate); (R17.2) nothing is created on the empty-version edge; (R17.3) a version string is returned or remembered only on the true edge of a constraint Check of that version (install), resp. only while the all-parents-valid flag — cleared on any failing Check — is set (update), or it is the pinned digest; " +
 			"(R17.4) the version lists are sorted ascending before the scan, the install scan keeps overwriting without early exit (highest satisfying), the update scan returns the first not-older match and remembers older ones only when downgrades are enabled; (R17.5) Resolve returns a nil error only past the no-missing and no-invalid edges after ranging over all dependencies; " +
-			"(R17.6, sibling rule) both DAG implementations mark the DFS stack, fail on a back edge, visit every unvisited node in Sort and fail on a missing node in traceNode; (R17.7) the upgrading DAG reads a dependency's parent constraints only after the edge was added. R17.4 also requires that the versions scanned are the result of fetcher.Tags made in the same call. R17.4 also requires that no version is appended after the sort; R17.5 also requires that the loop over the direct dependencies is left early only with an error.",
+			"(R17.6, sibling rule) both DAG implementations mark the DFS stack, fail on a back edge, visit every unvisited node in Sort and fail on a missing node in traceNode; (R17.7) the upgrading DAG reads a dependency's parent constraints only after the edge was added. R17.4 also requires that the versions scanned are the result of fetcher.Tags made in the same call. R17.4 also requires that no version is appended after the sort; R17.5 also requires that the loop over the direct dependencies is left early only with an error. (R17.10) LockPackage.Neighbors yields every dependency (complete projection).",
 		NotDecided:  []string{"semver semantics (what Check means)", "graph algorithms as functions of arbitrary graphs", "registry tag listings"},
 		Assumptions: []string{"sort.Sort(semver.Collection) sorts ascending", "semver.Constraints.Check is the constraint oracle"},
 	})
